@@ -164,7 +164,9 @@ Definition c01_monitor (c : fsm_case) : bool :=
 
 (* the reflective table check behind the theorems: either the table never runs the paying
    action (maker roles), or (taker roles) no state overwrites the agreement or the blinding key
-   and the paying state is entered by the confirmation event only *)
+   and the paying state is entered by the confirmation event only, and nothing leads back into
+   the Default state *)
 Definition c01_table_ok (t : table) : bool :=
   table_avoids t pay_action ||
-  (table_avoids t create_out_action && table_avoids t blind_wrapper && entries_by t pay_action Ev_TxConfirmed).
+  (table_avoids t create_out_action && table_avoids t blind_wrapper && entries_by t pay_action Ev_TxConfirmed &&
+   default_inert t).
